@@ -38,14 +38,16 @@ def roles(fam):
                 m = t[0] == 'set' and re.match(r'bin:Add\(field:(\w+),const:\d+\)$', str(t[2]))
                 if m and m.group(1) == t[1]:
                     wc[t[1]] += 1
-            for cs in b.calls():
+            bb_ = see_through(b)
+            for cs in bb_.calls():
                 if cs.name == 'get_unchecked_mut' and cs.t['args']:
-                    ww[_root_field(b, cs.arg(0))] += 1
+                    ww[_root_field(bb_, cs.arg(0))] += 1
     for name, b in fam.R.items():
         for t in fam.sig(b):
             m = t[0] == 'set' and re.match(r'bin:Add\(field:(\w+),const:\d+\)$', str(t[2]))
             if m and m.group(1) == t[1]:
                 rc[t[1]] += 1
+        b = see_through(b)          # the re-derivation may live in a private helper
         for bb in b.bbs:
             for st in bb['st']:
                 if 'p' in st and not bb['cleanup']:
